@@ -212,7 +212,7 @@ Qed.
 
 (* ---- TLS <= 1.2 ---- *)
 Lemma run12_complete e v w vers fl c :
-  synced v w = true -> e_fix_curve12 e = true \/ e_fix_curve12 e = false ->
+  synced v w = true ->
   memN (h_suite (f_sh fl)) (w_suites w) = true -> memN (h_suite (f_sh fl)) (e_impl12 e) = true -> h_comp (f_sh fl) = 0 ->
   is_nil (h_alpn (f_sh fl)) || memB (h_alpn (f_sh fl)) (w_alpn w) = true ->
   (if memN (h_suite (f_sh fl)) (e_ecdhe12 e)
@@ -222,7 +222,7 @@ Lemma run12_complete e v w vers fl c :
   exists st, run12 e (set_ecdhe v c) vers (f_sh fl) fl = Complete st /\ cs_vers st = vers /\ cs_suite st = h_suite (f_sh fl)
              /\ cs_alpn st = h_alpn (f_sh fl).
 Proof.
-  intros SY _ Hs Hi Hc Ha Hk Hcr.
+  intros SY Hs Hi Hc Ha Hk Hcr.
   destruct (synced_inv _ _ SY) as (Ss & Sc & Sh & Sa & Si & Sp & Scc & _).
   unfold run12. change (cv_suites (set_ecdhe v c)) with (cv_suites v). change (cv_alpn (set_ecdhe v c)) with (cv_alpn v).
   rewrite Ss, Hs, Hi, Hc. change (0 =? 0) with true. cbn [andb negb].
@@ -269,9 +269,10 @@ Proof.
         destruct (N.eqb_spec (offered_max e v) V13) as [E|_]; [rewrite E in OM; congruence|].
         destruct (N.eqb_spec (offered_max e v) V12) as [E|_]; [rewrite E in OM; congruence|]. reflexivity. }
     rewrite CAN.
-    replace (h_vers (f_sh fl) =? V13) with false by (symmetry; apply N.eqb_neq; unfold V13 in *; lia).
-    destruct (run12_complete e v w (h_vers (f_sh fl)) fl c SY (or_comm _ _ |> fun x => x) Csuite Cimpl Ccomp Calpn Cskx Ccr) as (st & R & A1 & A2 & A3).
-    exists st. split; [exact R|]. split; [exact A2|]. right. split; [exact A1|]. split; [rewrite A1; unfold V13 in *; lia|exact A3].
+    assert (NE : h_vers (f_sh fl) <> V13) by (clear -Clt; unfold V13 in *; lia).
+    replace (h_vers (f_sh fl) =? V13) with false by (symmetry; apply N.eqb_neq; exact NE).
+    destruct (run12_complete e v w (h_vers (f_sh fl)) fl c SY Csuite Cimpl Ccomp Calpn Cskx Ccr) as (st & R & A1 & A2 & A3).
+    exists st. split; [exact R|]. split; [exact A2|]. right. split; [exact A1|]. split; [rewrite A1; exact NE|exact A3].
   - (* TLS 1.3 *)
     destruct (compliant13_inv _ _ C) as [Coff Csh Ctail Ccookie Csel Cgi Cgw Chrr Calpn Ccc Cskx Ccr].
     assert (F1 : h_sv (match f_hrr fl with Some h => h | None => f_sh fl end) = V13 /\ h_tail (match f_hrr fl with Some h => h | None => f_sh fl end) = 0).
@@ -288,3 +289,48 @@ Proof.
     destruct (run13_complete fixed v ks m w fl e H NP NH C) as (st & R & A1 & A2 & A3 & A4).
     exists st. split; [exact R|]. split; [exact A2|]. left. auto.
 Qed.
+
+(* ---- the excluded classes really abort: counterexamples to the full statement ---- *)
+Definition counterexample (fixed : bool) (v : client_view) (ks : kshape) (m : N) (w : wire_view) (fl : flight) (alert : N) : Prop :=
+  spec_pre env_fixed v ks m w = true /\ wf_groups (cv_shares v) = true /\ preset_shape fixed (cv_shares v) = Some ks
+  /\ compliant env_fixed m w fl = true /\ client_run10 fixed env_fixed v ks fl = Abort alert.
+
+(* PSK offered + HelloRetryRequest for an offered group: "uTLS does not support reprocessing of PSK" *)
+Lemma psk_hrr_counterexample :
+  let ks := mkShape 29 [] false 0 in
+  counterexample true (wit_view [29; 23] [29] 1 ks) ks V12 (wit_wire [29; 23] [29] 1) (wit_flight (Some 23) 23) a_none.
+Proof. vm_compute. repeat split. Qed.
+
+(* supported_groups lists a hybrid group without a key share, the server asks for it in a HelloRetryRequest *)
+Lemma hrr_hybrid_counterexample :
+  let ks := mkShape 29 [] false 0 in
+  counterexample true (wit_view [4588; 29; 23] [29] 0 ks) ks V12 (wit_wire [4588; 29; 23] [29] 0) (wit_flight (Some 4588) 4588) a_internal_error.
+Proof. vm_compute. repeat split. Qed.
+
+(* before the repair: two classical shares, the server selects the second *)
+Lemma second_share_counterexample :
+  let ks := mkShape 29 [] false 0 in
+  counterexample false (wit_view [29; 23] [29; 23] 0 ks) ks V12 (wit_wire [29; 23] [29; 23] 0) (wit_flight None 23) a_illegal_parameter.
+Proof. vm_compute. repeat split. Qed.
+
+(* ... and after it the same hello completes on both shares, and on P-384 through a HelloRetryRequest *)
+Lemma second_share_fixed :
+  let ks := mkShape 29 [23] false 0 in
+  preset_shape true [29; 23] = Some ks
+  /\ forall fl, In fl [wit_flight None 29; wit_flight None 23; wit_flight (Some 24) 24] ->
+       c10_cond true env_fixed (wit_view [29; 23; 24] [29; 23] 0 ks) ks V12 (wit_wire [29; 23; 24] [29; 23] 0) fl = true
+       /\ compliant env_fixed V12 (wit_wire [29; 23; 24] [29; 23] 0) fl = true.
+Proof.
+  split; [vm_compute; reflexivity|]. intros fl H. simpl in H.
+  repeat (destruct H as [<-|H]; [vm_compute; split; reflexivity|]). destruct H.
+Qed.
+
+Lemma counterexample_refutes fixed v ks m w fl a : counterexample fixed v ks m w fl a -> ~ C10_full fixed.
+Proof.
+  intros (A & B & C & D & E) F. destruct (F v ks m w fl A B C D) as (st & G). rewrite E in G. discriminate.
+Qed.
+
+Theorem C10_full_refuted_fixed : ~ C10_full true.
+Proof. exact (counterexample_refutes _ _ _ _ _ _ _ psk_hrr_counterexample). Qed.
+Theorem C10_full_refuted_unfixed : ~ C10_full false.
+Proof. exact (counterexample_refutes _ _ _ _ _ _ _ second_share_counterexample). Qed.
